@@ -65,6 +65,8 @@ impl RegexBuilder {
     pub fn nest_limit(self, n: u32) -> (r: RegexBuilder) ensures r.o == (ReOpts { nest_limit: Some(n), ..self.o }) { RegexBuilder { o: ReOpts { nest_limit: Some(n), ..self.o } } }
 }
 
+// every rule's regex is anchored at the current position and wrapped in a non-capturing group (the lexer's longest-match loop relies on it): pinned to the text
+//@expect file=lrlex/src/lib/lexer.rs re=`RegexBuilder::new\(\&format!\("\\\\A\(\?:\{\}\)",\ re_str\)\)`
 //@ctx rule_new: the builder methods of the regex crate take the builder by `&mut` and hand it back; read here as by value (the chain is linear)
 //@ctx rule_new: called with merged flags (new_with_lex_flags merges before any rule is built; the generated lexer code passes the flags it recorded after the merge)
 fn rule_new_builder(lex_flags: &LexFlags) -> (re: RegexBuilder)
